@@ -177,6 +177,11 @@ func (x *Exec) callFunc(call *ast.CallExpr, obj *types.Func, recv *Val, args []*
 	}
 	c := x.W.CS.ByKey[key]
 	fi := x.W.ByObj[obj.Origin()]
+	if inst := x.callInstance(call, obj, recv, fr); inst != "" {
+		if ic, ok := x.W.CS.ByKey[key+"["+inst+"]"]; ok {
+			c = ic
+		}
+	}
 	if sf, ok := x.W.Specs[key]; ok && fi != nil && fi.IsSpec {
 		var v *Val
 		if !x.pure && x.W.SameSCC(x.Fn.Key, key) {
@@ -224,6 +229,38 @@ func (x *Exec) checkDecreases(st *St, c *Contract, env *CEnv, pos string) {
 	x.wrapCfail("decreases of "+c.Key, func() { m1 = x.measureOf(c, env) })
 	x.emit(st, oblTemplate{kind: "decreases", label: "recursion", clause: c.Decreases.Text, pos: pos,
 		name: x.Fn.Key + "/decreases#recursion"}, nil, decreasesGoal(m1, x.measure0))
+}
+
+// callInstance names the type instance of a call of a generic function or of a method of a generic type.
+func (x *Exec) callInstance(call *ast.CallExpr, obj *types.Func, recv *Val, fr *Frame) string {
+	var ta types.Type
+	sig := obj.Type().(*types.Signature)
+	if obj.Origin().Type().(*types.Signature).TypeParams().Len() > 0 {
+		var id *ast.Ident
+		switch f := ast.Unparen(call.Fun).(type) {
+		case *ast.Ident:
+			id = f
+		case *ast.IndexExpr:
+			id, _ = ast.Unparen(f.X).(*ast.Ident)
+		}
+		if id != nil {
+			if in, ok := fr.info.Instances[id]; ok && in.TypeArgs.Len() > 0 {
+				ta = in.TypeArgs.At(0)
+			}
+		}
+	} else if sig.Recv() != nil && recv != nil && recv.Ty != nil {
+		if n, ok := derefType(recv.Ty).(*types.Named); ok && n.TypeArgs().Len() > 0 {
+			ta = n.TypeArgs().At(0)
+		}
+	}
+	if ta == nil {
+		return ""
+	}
+	ta = fr.subst(ta)
+	if n, ok := derefType(ta).(*types.Named); ok {
+		return n.Obj().Name()
+	}
+	return ""
 }
 
 // implementers returns the named types of the repository that implement iface and carry method name.
